@@ -7,6 +7,7 @@ import Holpy.C20.ProofsParse
 import Holpy.C20.ProofsParseCond
 import Holpy.C20.ProofsParseWf
 import Holpy.C20.ProofsLex4
+import Holpy.C20.ProofsLexCom
 /-
 C20 — property theorems (helper lemmas: Proofs.lean, ProofsSem.lean, ProofsParse.lean).
 `Exec` is the big-step semantics of Proofs.lean, `holds s e` is `evalE s e = some (.bool true)`,
@@ -210,6 +211,16 @@ theorem print_parse_sem (e : Expr) (hw : wfC e = true) (hn : namesOK e = true) :
 /-- non-vacuity with a loop: every VC of `Ex.prog` is a `wfC` condition over identifiers, so its shown
 string parses back to it. -/
 example : ∀ v ∈ vcsOf Ex.inv Ex.prog Ex.post, wfC v = true ∧ namesOK v = true := by decide
+
+/-- The lexer reads a printed program (`print_com`, lines joined by newlines) back as exactly its tokens
+`comToks c`, for every program whose names are identifiers (`nameOK`) and whose operators have a concrete
+syntax (`lexOKc`, decidable). No parse-back theorem for programs is claimed: `Seq(Cond(..), c)` has no
+concrete syntax (known finding). -/
+theorem lex_print_com (c : Com) (h : lexOKc c = true) : lex (ppCom c) = some (comToks c) :=
+  lex_ppCom h
+
+example : lexOKc (.seq Ex.prog (.cond (.bin .le (.var "a") (.int 0)) .skip (.assign "b_1" (.un .neg (.var "a"))))) = true ∧
+    (comToks (.seq Ex.prog (.cond (.bin .le (.var "a") (.int 0)) .skip (.assign "b_1" (.un .neg (.var "a")))))).length = 32 := by decide
 
 /-! ### `Sem` of library/hoare.json (Gen.lean is regenerated from the library on every run) -/
 
